@@ -1,6 +1,6 @@
 (* C05 — No lost wake-ups: registrations become tasks atomically with completion.
    Only statements, closed by lemmas of Proofs/, and their assumptions. *)
-From RV Require Import Mon MonC05 StoreLocks StorePromises StoreCallbacks Discipline SysInv PC05.
+From RV Require Import Mon MonC05 MonC03 MonC05h StoreLocks StorePromises StoreCallbacks Discipline SysInv PC05 PT05.
 
 (* PROVED for EVERY schedule of well-formed requests (every interleaving of registrations with every completion
    path - explicit completion, lazy time-out by read/create/complete/search, background sweep -, both orders
@@ -17,6 +17,15 @@ From RV Require Import Mon MonC05 StoreLocks StorePromises StoreCallbacks Discip
 Theorem C05_holds_partial : forall cfg sch, sch_wf sch -> C05_mon (events cfg sch) = [].
 Proof. exact C05_trace. Qed.
 Print Assumptions C05_holds_partial.
+
+(* clause 507 for EVERY schedule (Proofs/PT05.v): a registration request (callback / subscription) that is answered
+   "nothing new, the promise is still pending" is durably registered at that moment - the callback row with the derived
+   id exists, or the task that row became.  The invariant follows the registration coroutine through its three
+   store round trips (read, guarded insert, re-read after an insert that wrote nothing - the repair of D1) and carries,
+   across every interleaved commit, the monotone fact "registered, or the promise is no longer pending". *)
+Theorem C05_registration_answers_every_schedule : forall cfg sch, sch_wf sch -> C05ya_mon (events cfg sch) = [].
+Proof. exact C05ya_trace. Qed.
+Print Assumptions C05_registration_answers_every_schedule.
 
 (* the completion transaction, for ARBITRARY databases satisfying the invariant and arbitrary arguments *)
 Theorem C05_completion_converts : forall d u t hs d' rs,
